@@ -448,13 +448,24 @@ Qed.
 (* scrapes: no announce is logged, only trackers' busy flag / latest event change *)
 Lemma send_scrape_frame t x : log (send_scrape t x) = log x /\ frame x (send_scrape t x).
 Proof.
-  unfold send_scrape. destruct (t_busy t || negb (is_usable t)); [split; [reflexivity | apply frame_refl] |].
-  destruct (negb (t_scr t)); [split; [reflexivity | apply frame_refl] |].
-  destruct (now x <? (t_sct t + scrape_min_gap) * usec); [split; [reflexivity | apply frame_refl] |].
+  unfold send_scrape. destruct (t_busy t || negb (is_usable t)) eqn:G1; [split; [reflexivity | apply frame_refl] |].
+  destruct (negb (t_scr t)) eqn:G2; [split; [reflexivity | apply frame_refl] |].
+  destruct (now x <? (t_sct t + scrape_min_gap) * usec) eqn:G3; [split; [reflexivity | apply frame_refl] |].
+  apply orb_false_elim in G1. destruct G1 as [Gb Gu]. apply negb_false_iff in Gu, G2. apply Z.ltb_ge in G3.
   split; [reflexivity |]. split; [reflexivity |]. unfold keeps; simpl. ssplit; auto.
   - apply upd_map. reflexivity.
   - intros P HP H. apply upd_Forall; [| assumption]. intros y Hy. apply HP. assumption.
   - apply upd_map. reflexivity.
+  - (* J: the scraping tracker's latest event is SCRAPE, it is busy but not with an announce; the scrape is logged
+       with the guard facts *)
+    intros (Jk & Jt & Jm & Jp & Js). unfold J, ids in *. simpl. ssplit; auto.
+    + rewrite upd_map by reflexivity. exact Jk.
+    + unfold upd. rewrite Forall_forall in *. intros y Hy. apply in_map_iff in Hy. destruct Hy as [z [E Hz]].
+      destruct (Jt z Hz) as [Pe Pp]. destruct (Nat.eqb (t_id z) (t_id t)); subst y; [| split; assumption].
+      split.
+      * unfold Pev in *. simpl. destruct (newest_for (t_id z) (log x)); right; reflexivity.
+      * unfold Ppend. intros. unfold busy_ann. simpl. reflexivity.
+    + constructor; [| exact Js]. unfold scrape_ok. unfold is_usable in Gu. auto.
 Qed.
 
 Lemma scrape_groups_frame fuel : forall rest x, log (scrape_groups fuel rest x) = log x /\ frame x (scrape_groups fuel rest x).
